@@ -456,10 +456,34 @@ def map_expr(e, f):
 def replace_var_base(e, alias, new=('this',)):
     """Expected effect of an event's own alias: @alias as a reference becomes the message itself.
 
-    Not capture-avoiding on purpose: callers never generate a quantifier that
-    re-binds an event alias (documented exclusion, finding F16).
+    Capture-avoiding: inside a quantifier that binds the same name, @alias is the bound variable and stays
+    (the domain of that quantifier is still outside its scope).
     """
-    return map_expr(e, lambda n: new if n == ('var', alias) else n)
+    k = e[0]
+    if k == 'var':
+        return new if e[1] == alias else e
+    if k in ('lit', 'const', 'this'):
+        return e
+    r = lambda x: replace_var_base(x, alias, new)  # noqa: E731
+    if k == 'field':
+        return ('field', r(e[1]), e[2])
+    if k == 'index':
+        return ('index', r(e[1]), r(e[2]))
+    if k == 'set':
+        return ('set', tuple(r(v) for v in e[1]))
+    if k == 'range':
+        return ('range', r(e[1]), r(e[2]), e[3], e[4])
+    if k == 'un':
+        return ('un', e[1], r(e[2]))
+    if k == 'bin':
+        return ('bin', e[1], r(e[2]), r(e[3]))
+    if k == 'q':
+        return ('q', e[1], e[2], r(e[3]), e[4] if e[2] == alias else r(e[4]))
+    if k == 'call':
+        return ('call', e[1], r(e[2]))
+    if k == 'calln':
+        return ('calln', e[1], tuple(r(a) for a in e[2]))
+    raise ValueError(e)
 
 
 def free_vars(e, bound=frozenset()):
